@@ -8,14 +8,29 @@ namespace Frp
 namespace Engines
 open Proto Router Str HttpAuth
 
+/-- one queued web request: which endpoint (router + configured credentials) and the request as written -/
+structure WebItem where
+  R      : WebAuth.Router
+  cfg    : Creds
+  method : Str
+  target : Str
+  hdr    : Option Str
+  ok     : Bool                       -- inside the modelled syntax
+
 structure HttpAuthState where
   T : Table := { R := Router.empty, creds := [] }
   M : Table := { R := Router.empty, creds := [] }
+  wq : List WebItem := []             -- web requests queued by `wq`, answered at the next `wflush`
 
-/-- "-" | "m<k>" ↦ none ; "b<k>:<hexu>:<hexp>" ↦ some (u, p) ; anything else ↦ malformed token -/
+/-- "-" | "m<k>" ↦ none ; "b<k>:<hexu>:<hexp>" ↦ some (u, p) ; "r<hexvalue>" ↦ the parse of the raw value ;
+    anything else ↦ malformed token -/
 def parseAuthTok (t : String) : Option (Option (Str × Str)) :=
   if t = "-" then some none
   else if t.startsWith "m" then some none
+  else if t.startsWith "r" then
+    -- the header value byte for byte (`req`, `mreq`: sent over TCP, so textproto trims it); parsed by
+    -- net/http `parseBasicAuth` / frp's copies of it (vhost.parseBasicAuth, httppkg.ParseBasicAuth)
+    (unhx (t.drop 1).toString).map (fun v => WebAuth.parseBasicAuth (WebAuth.trimWsp v))
   else match t.splitOn ":" with
     | [_, u, p] => match unhx u, unhx p with
       | some u, some p => some (some (u, p))
@@ -38,6 +53,98 @@ def parseResp (s : String) : Option Resp :=
 def targetInDomain (form : String) (p : Str) : Bool :=
   p.all (fun c => 33 ≤ c && c < 127 && c != 63 && c != 35) &&
   (if form = "c" then p.isEmpty else p.head? = some 47)
+
+
+/-! ### web endpoints: header-level tokens and observation classes -/
+
+open WebAuth in
+/-- the `Authorization` value the harness writes for a token (mirror of `authHeader` in
+    harness/eng_httpauth.go): "-" absent, "m<k>" five malformed kinds, "b<k>:<hexuser>:<hexpass>" =
+    scheme in casing k, space, base64(user ":" pass), "r<hex>" = the raw value -/
+def authTokHeader (t : String) : Option (Option Str) :=
+  if t = "-" then some none
+  else if t = "m0" then some (some (Str.ofString "Bearer abc"))
+  else if t = "m1" then some (some (Str.ofString "Basic !!!"))
+  else if t = "m2" then some (some (Str.ofString "Basic"))
+  else if t = "m3" then some (some (Str.ofString "Basic YWxpY2U="))
+  else if t.startsWith "m" then some (some (Str.ofString "Digest x=y"))
+  else if t.startsWith "r" then (unhx (t.drop 1).toString).map some
+  else match t.splitOn ":" with
+    | [k, u, p] =>
+      let scheme := if k = "b0" then some "Basic" else if k = "b1" then some "basic" else if k = "b2" then some "BASIC" else none
+      match scheme, unhx u, unhx p with
+      | some sc, some u, some p => some (some (Str.ofString sc ++ [32] ++ Base64.encode (u ++ Str.colon :: p)))
+      | _, _, _ => none
+    | _ => none
+
+/-- header values the model speaks about: what net/http accepts in a field value and textproto leaves alone
+    apart from trimming (printable ASCII, SP, HT) -/
+def hdrInDomain (v : Str) : Bool := v.all (fun c => (32 ≤ c && c < 127) || c = 9)
+
+open WebAuth in
+/-- "-" | "w<k>:<hexvalue>[:<hexvalue>]": the Authorization lines of a request as written (k = spelling of the
+    field name: 0-3 letter-case variants of "Authorization", 4 = "Proxy-Authorization", which the web
+    endpoints do not read).  Result: `Header.Get("Authorization")`; outer `none` = malformed token -/
+def parseWireAuth (t : String) : Option (Option Str × Bool) :=
+  if t = "-" then some (none, true)
+  else if !t.startsWith "w" then none
+  else match t.splitOn ":" with
+    | k :: vs =>
+      match vs.mapM unhx with
+      | some vals =>
+        if vals.isEmpty then none
+        else some (if k = "w4" then none else headerGet vals, vals.all hdrInDomain)
+      | none => none
+    | [] => none
+
+def methodInDomain (m : Str) : Bool :=
+  !m.isEmpty && m.all (fun c => (65 ≤ c && c ≤ 90) || (97 ≤ c && c ≤ 122))
+
+def webOutString : WebAuth.Out → String
+  | .redirect => "301"
+  | .notFound => "404"
+  | .notAllowed => "405"
+  | .unauthorized => "401"
+  | .handler _ => "h"
+
+/-- what the model expects for one request: "400" when the target does not decode (net/http answers
+    itself), else the router's outcome -/
+def webModel (q : WebItem) : String :=
+  if !q.ok then "-" else
+  match unescapePath q.target with
+  | none => "400"
+  | some p => webOutString (WebAuth.serve q.R q.cfg ⟨q.method, p, q.hdr⟩)
+
+/-- class of an observed response "<status><flag>" (flag: e = empty body, n = body "404 page not found",
+    g = Content-Encoding: gzip set by the gzip wrapper in front of a file handler, o = other body):
+    the middleware's 401, the router's own 405 / 404 / clean-path 301, the server's 400 for an undecodable
+    target; everything else means a route handler produced the response ("h") -/
+def webObs (q : WebItem) (tok : String) : String :=
+  if !q.ok then "-" else
+  let decoded := unescapePath q.target
+  if tok = "401e" || tok = "401o" then "401"
+  else if tok = "405e" then "405"
+  else if tok = "404n" || tok = "404e" then "404"
+  else if tok = "301e" && (match decoded with | some p => WebAuth.cleanPath p != p | none => false) then "301"
+  else if tok.startsWith "400" && decoded.isNone then "400"
+  else if tok = "err" then "err"
+  else "h"
+
+def webProp (q : WebItem) (obs : String) : Bool :=
+  if !q.ok then true else
+  match unescapePath q.target with
+  | none => obs != "h"
+  | some p => C07.webHoldsOn q.R q.cfg ⟨q.method, p, q.hdr⟩ (obs == "h")
+
+/-- `wflush`: the queued requests, implementation answers joined by ',' -/
+def webStep (qs : List WebItem) (impl : String) : Verdict :=
+  let toks := if impl = "-" then [] else impl.splitOn ","
+  let ms := qs.map webModel
+  let render := fun (l : List String) => if l.isEmpty then "-" else ",".intercalate l
+  if toks.length != qs.length then .diff (render ms) none else
+  let obs := (qs.zip toks).map (fun x => webObs x.1 x.2)
+  let prop := (qs.zip obs).all (fun x => webProp x.1 x.2)
+  verdictOf (render ms) (render obs) (some prop)
 
 def plActString : PlAct → String
   | .refuseClose => "rc"
@@ -104,12 +211,39 @@ def httpAuthStep (st : HttpAuthState) (tok : List String) (impl : String) : Http
       (st, verdictOf ms impl prop)
     | _, _ => (st, .bad "mreq")
   | ["mw", u, p, a] =>
-    match unhx u, unhx p, parseAuthTok a with
-    | some u, some p, some a =>
-      let m := middleware ⟨u, p⟩ a
-      let prop := if impl = "next" then some (decide ((u = [] ∧ p = []) ∨ a = some (u, p))) else some true
-      (st, verdictOf (if m then "next" else "401") impl prop)
+    -- the real middleware in front of a recording handler; the model starts from the header bytes
+    match unhx u, unhx p, authTokHeader a with
+    | some u, some p, some hdr =>
+      let m := WebAuth.middlewareHdr ⟨u, p⟩ hdr
+      (st, verdictOf (if m then "next" else "401") impl (some (C07.mwHoldsOn ⟨u, p⟩ hdr (impl == "next"))))
     | _, _, _ => (st, .bad "mw")
+  | ["wq", kind, u, p, x, m, t, a] =>
+    -- queue one request for a web endpoint: sf = the real static_file plugin (x = strip prefix), dash = the web
+    -- server of a real frps (x = enablePrometheus), adm = the admin server of a real frpc
+    match unhx u, unhx p, unhx m, unhx t, parseWireAuth a with
+    | some u, some p, some m, some t, some (h, okh) =>
+      let R : Option WebAuth.Router :=
+        if kind = "sf" then (unhx x).map WebAuth.sfRouter
+        else if kind = "dash" then some (WebAuth.dashRouter (x == "1"))
+        else if kind = "adm" then some WebAuth.adminRouter
+        else none
+      match R with
+      | some R =>
+        ({ st with wq := st.wq ++ [⟨R, ⟨u, p⟩, m, t, h, okh && methodInDomain m && targetInDomain "o" t⟩] },
+         verdictOf "q" impl)
+      | none => (st, .bad "wq kind")
+    | _, _, _, _, _ => (st, .bad "wq")
+  | ["wflush"] => ({ st with wq := [] }, webStep st.wq impl)
+  | ["s5", u, p, ver, methods, av, qu, qp] =>
+    -- the real socks5 plugin (NewSocks5Plugin + Handle) in front of a recording target
+    match unhx u, unhx p, ver.toNat?, unhx methods, av.toNat?, unhx qu, unhx qp with
+    | some u, some p, some ver, some methods, some av, some qu, some qp =>
+      let q : WebAuth.S5Req := ⟨ver, methods, av, qu, qp⟩
+      let ms := match WebAuth.socks5 ⟨u, p⟩ q with
+        | .closed => "closed" | .noAcceptable => "na" | .closedAfterSelect => "closed2"
+        | .authFailed => "af" | .connected => "conn+"
+      (st, verdictOf ms impl (some (C07.s5HoldsOn ⟨u, p⟩ q (impl.endsWith "+"))))
+    | _, _, _, _, _, _, _ => (st, .bad "s5")
   | ["pl", u, p, a] =>
     match unhx u, unhx p, parseAuthTok a with
     | some u, some p, some a =>
